@@ -47,10 +47,10 @@ fn main() {
         }
         return;
     }
-    if mode == "bracketmatch" || mode == "flagslice" {
+    if mode == "bracketmatch" || mode == "flagslice" || mode == "smallslice" {
         // membership / match questions of the bounded-exhaustive slices, for V8 (development time)
-        let cases: Vec<Case> = if mode == "bracketmatch" { rvh::props::c12::bracket_cases() } else { rvh::props::c01::flag_slice().iter().step_by(n.max(1)).cloned().collect() };
-        let hays3: Vec<String> = rvh::props::common::all_strings(&[0x61, 0x41, 0x0A], 3);
+        let cases: Vec<Case> = if mode == "bracketmatch" { rvh::props::c12::bracket_cases() } else if mode == "smallslice" { rvh::props::c01::small_slice(true).iter().step_by(n.max(1)).cloned().collect() } else { rvh::props::c01::flag_slice().iter().step_by(n.max(1)).cloned().collect() };
+        let hays3: Vec<String> = if mode == "smallslice" { rvh::props::common::all_strings(&[0x61, 0x62], 4) } else { rvh::props::common::all_strings(&[0x61, 0x41, 0x0A], 3) };
         for c in cases {
             let fl = Fl::parse(&c.flags);
             let pu = match units(&c.pat) {
